@@ -545,60 +545,131 @@ def r5(prog, rep):
                 return root(e.args[0], depth + 1)
         return norm(e)
 
-    def reaches(e: ast.AST, depth=0, seen=None) -> Set[str]:
-        """self attributes an expression's value derives from (def-use closure over locals, including collections filled
-        in loops and names bound by `for ... in zip(a, b)`)"""
+    def reaches(e: ast.AST, depth=0, seen=None, line=None) -> Set[str]:
+        """self attributes an expression's value derives from: def-use closure over locals (including collections filled by item
+        stores and names bound by `for ... in zip(a, b)`), following for every name the last plain assignment before the use"""
         seen = set() if seen is None else seen
+        line = getattr(e, "lineno", 10 ** 9) if line is None else line
         out: Set[str] = set()
         for n in ast.walk(e):
             d = dotted(n) if isinstance(n, ast.Attribute) else None
             if d and d.startswith("self._pending"):
                 out.add(d)
-            if isinstance(n, ast.Name) and n.id not in seen and depth < 8:
-                seen.add(n.id)
+            if isinstance(n, ast.Name) and (n.id, line) not in seen and depth < 8:
+                seen.add((n.id, line))
+                plain = [st for st in walk_no_nested(f.node) if isinstance(st, ast.Assign) and st.lineno < line and
+                         any(isinstance(t, ast.Name) and t.id == n.id or isinstance(t, ast.Tuple) and any(isinstance(x, ast.Name) and x.id == n.id for x in ast.walk(t))
+                             for t in st.targets)]
+                last = max(plain, key=lambda st: st.lineno) if plain else None
+                floor_ = last.lineno if last is not None else 0
+                if last is not None:
+                    out |= reaches(last.value, depth + 1, seen, last.lineno)
                 for st in walk_no_nested(f.node):
-                    if isinstance(st, ast.Assign):
+                    if isinstance(st, ast.Assign) and floor_ < st.lineno < line:
                         for t in st.targets:
                             base = t
                             while isinstance(base, ast.Subscript):
                                 base = base.value
-                            names_t = {x.id for x in ast.walk(base) if isinstance(x, ast.Name)} if not isinstance(t, ast.Name) else {t.id}
-                            if isinstance(t, ast.Tuple):
-                                names_t = {x.id for x in ast.walk(t) if isinstance(x, ast.Name)}
-                            if n.id in names_t:
-                                out |= reaches(st.value, depth + 1, seen)
-                    elif isinstance(st, ast.For):
+                            if isinstance(t, ast.Subscript) and isinstance(base, ast.Name) and base.id == n.id:
+                                out |= reaches(st.value, depth + 1, seen, st.lineno)
+                                out |= reaches(t.slice, depth + 1, seen, st.lineno)
+                    elif isinstance(st, ast.For) and st.lineno < line:
                         if n.id in {x.id for x in ast.walk(st.target) if isinstance(x, ast.Name)}:
-                            out |= reaches(st.iter, depth + 1, seen)
+                            out |= reaches(st.iter, depth + 1, seen, st.lineno)
         return out
 
     calls = list(calls_in(f.node))
     ccb = [c for c in calls if isinstance(c.func, ast.Attribute) and c.func.attr == "changeColsBounds"]
     n_ok = 0
+
+    def last_def_(name: str, before: int) -> Optional[ast.AST]:
+        best = None
+        for st in walk_no_nested(f.node):
+            if isinstance(st, ast.Assign) and len(st.targets) == 1 and isinstance(st.targets[0], ast.Name) and st.targets[0].id == name and st.lineno < before:
+                if best is None or st.lineno > best.lineno:
+                    best = st
+        return best.value if best is not None else None
+
+    def duplicate_free(e: ast.AST, before: int, depth=0) -> Optional[bool]:
+        """Is the index array built from the keys of a dict / a set (sorted(d), np.unique(...)) - or from a plain list of the queue (duplicates possible)?"""
+        if isinstance(e, ast.Name) and depth < 4:
+            d_ = last_def_(e.id, before)
+            return duplicate_free(d_, before, depth + 1) if d_ is not None else None
+        if isinstance(e, ast.Call):
+            fn = (dotted(e.func) or "").split(".")[-1]
+            if fn in ("array", "asarray", "list", "tuple") and e.args:
+                return duplicate_free(e.args[0], before, depth + 1)
+            if fn == "unique":
+                return True
+            if fn == "sorted" and e.args:
+                a = e.args[0]
+                if isinstance(a, ast.Name):
+                    d_ = last_def_(a.id, before)
+                    if isinstance(d_, (ast.Dict, ast.Set)) or (isinstance(d_, ast.Call) and dotted(d_.func) in ("dict", "set")) or isinstance(d_, (ast.DictComp, ast.SetComp)):
+                        return True
+                if isinstance(a, (ast.SetComp, ast.DictComp)) or (isinstance(a, ast.Call) and dotted(a.func) in ("set", "dict")):
+                    return True
+                return False
+        if isinstance(e, (ast.ListComp, ast.List)):
+            return False
+        return None
+
+    def status_checked(c: ast.Call) -> bool:
+        for st in walk_no_nested(f.node):
+            if isinstance(st, ast.Assign) and st.value is c and len(st.targets) == 1 and isinstance(st.targets[0], ast.Name):
+                nm = st.targets[0].id
+                for other in walk_no_nested(f.node):
+                    if isinstance(other, ast.If) and any(isinstance(b, ast.Raise) for b in other.body) and \
+                            any(isinstance(x, ast.Name) and x.id == nm for x in ast.walk(other.test)):
+                        return True
+        return False
+
     for c in ccb:
         if len(c.args) != 4:
             raise AnalysisError("changeColsBounds call without 4 positional arguments")
-        lo, up = root(c.args[2]), root(c.args[3])
-        if "_pending_fix_vals" in lo or "_pending_fix_vals" in up:
-            key = "SolverWrapper._apply_pending_bound_updates:highs:fix"
-            if lo == up == "self._pending_fix_vals":
-                rep.ok("C12.R5", key, "fix queue: lower = upper = requested value", f.loc(c), sample={"call": norm(c)})
-            else:
-                rep.violation("C12.R5", key, f"fix queue writes lower from `{lo}` and upper from `{up}` (must both be the queued values)", f.loc(c))
-            n_ok += 1
-        elif "self._pending_lb_vals" in reaches(c.args[2]) or "self._pending_lb_vals" in reaches(c.args[3]):
+        lo_src, up_src = reaches(c.args[2]), reaches(c.args[3])
+        up = root(c.args[3])
+        if "self._pending_lb_vals" in lo_src or "self._pending_lb_vals" in up_src:
             key = "SolverWrapper._apply_pending_bound_updates:highs:lower-bound"
             want = f"self.solver.getCols()[{GETCOLS_ORDER.index('upper')}]"
-            lo_src, up_src = reaches(c.args[2]), reaches(c.args[3])
-            if "self._pending_lb_vals" in lo_src and "self._pending_fix_vals" not in lo_src and up == want:
-                rep.ok("C12.R5", key, "lower-bound queue: new lower = requested, upper = current upper (element 4 = `upper` of Highs.getCols)",
+            if "self._pending_lb_vals" in lo_src and up == want:
+                rep.ok("C12.R5", key, "lower-bound queue: new lower from the requested values, upper = current upper (element 4 = `upper` of Highs.getCols)",
                        f.loc(c), sample={"call": norm(c), "upper_from": up, "contract": GETCOLS_ORDER})
             else:
                 m = re.match(r"self\.solver\.getCols\(\)\[(\d)\]", up)
                 what = f"element {m.group(1)} = `{GETCOLS_ORDER[int(m.group(1))]}`" if m and int(m.group(1)) < 6 else f"`{up}`"
                 rep.violation("C12.R5", key, f"lower-bound queue passes {what} of Highs.getCols (contract: {', '.join(GETCOLS_ORDER)}) as the new upper "
-                              f"bound and `{lo}` as lower: the upper bound of the variable is not preserved", f.loc(c))
+                              f"bound and `{norm(c.args[2])}` as lower: the upper bound of the variable is not preserved", f.loc(c))
             n_ok += 1
+        elif "self._pending_fix_vals" in lo_src or "self._pending_fix_vals" in up_src:
+            key = "SolverWrapper._apply_pending_bound_updates:highs:fix"
+            if norm(c.args[2]) == norm(c.args[3]) and "self._pending_fix_vals" in lo_src and "self._pending_lb_vals" not in lo_src:
+                rep.ok("C12.R5", key, "fix queue: lower = upper = requested value", f.loc(c), sample={"call": norm(c)})
+            else:
+                rep.violation("C12.R5", key, f"fix queue writes lower from `{norm(c.args[2])}` and upper from `{norm(c.args[3])}` (must both be the queued values)", f.loc(c))
+            n_ok += 1
+            # Highs.changeColsBounds(num, set, ...): a set with duplicate entries is rejected as a whole (nothing is changed)
+            keyd = "SolverWrapper._apply_pending_bound_updates:highs:fix-index-set"
+            df = duplicate_free(c.args[1], c.lineno)
+            if df is True and status_checked(c):
+                rep.ok("C12.R5", keyd, "fix queue: one entry per column (dict keys, sorted) and the returned status is checked", f.loc(c))
+            elif df is False:
+                rep.violation("C12.R5", keyd, f"the index set `{norm(c.args[1])}` of the fix queue is built from the queue itself, so a variable queued twice appears "
+                              "twice: HiGHS rejects a set with duplicates and changes nothing, and every fix of the batch is lost", f.loc(c))
+            elif df is True:
+                rep.violation("C12.R5", keyd, "the status returned by Highs.changeColsBounds for the queued fixes is discarded: a rejected batch is lost silently", f.loc(c))
+            else:
+                raise AnalysisError(f"_apply_pending_bound_updates: cannot tell how the index set `{norm(c.args[1])}` of the fix queue is built")
+    # a variable fixed in the same batch keeps its fixed value as lower bound: the lower bounds written derive from both queues
+    lb_writes = [c for c in calls if isinstance(c.func, ast.Attribute) and c.func.attr in ("changeColsLower", "changeColsBounds")
+                 and len(c.args) >= 3 and "self._pending_lb_vals" in reaches(c.args[2])]
+    keyi = "SolverWrapper._apply_pending_bound_updates:highs:fix-then-lower-bound"
+    if lb_writes:
+        if all("self._pending_fix_vals" in reaches(c.args[2]) for c in lb_writes):
+            rep.ok("C12.R5", keyi, "the lower bound written for a column takes the value fixed in the same batch into account (max)", f.loc(lb_writes[0]))
+        else:
+            rep.violation("C12.R5", keyi, "fixes are applied before lower bounds whatever the request order, and the lower-bound step writes the queued value alone: "
+                          "queue_set_var_lower_bound(x, 2) with queue_fix_variable(x, 5) in one batch leaves x in [2, 5] (the fix is released)", f.loc(lb_writes[0]))
     # contract of Highs.getCols(num_set_entries, set): `set` must be strictly increasing, otherwise the call returns an error status
     # and zero-filled arrays; the status / number of returned columns must be looked at before the arrays are used
     for gc in [c for c in calls if isinstance(c.func, ast.Attribute) and c.func.attr == "getCols"]:
@@ -648,18 +719,26 @@ def r5(prog, rep):
         raise AnalysisError("_apply_pending_bound_updates: HiGHS fix / lower-bound updates not found")
     # gurobi
     sa = [c for c in calls if isinstance(c.func, ast.Attribute) and c.func.attr == "setAttr" and len(c.args) == 3]
-    got = {}
+    fix_attrs, lb_attrs = set(), set()
+    lb_interplay = True
     for c in sa:
         attr = norm(c.args[0]).split(".")[-1]
-        got.setdefault((root(c.args[1]), root(c.args[2])), set()).add(attr)
-    fix_attrs = got.get(("self._pending_fix_vars", "self._pending_fix_vals"), set())
-    lb_attrs = got.get(("self._pending_lb_vars", "self._pending_lb_vals"), set())
+        src = reaches(c.args[2])
+        if "self._pending_lb_vals" in src:
+            lb_attrs.add(attr)
+            if "self._pending_fix_vals" not in src:
+                lb_interplay = False
+        elif "self._pending_fix_vals" in src:
+            fix_attrs.add(attr)
     if fix_attrs == {"LB", "UB"}:
         rep.ok("C12.R5", "SolverWrapper._apply_pending_bound_updates:gurobi:fix", "LB and UB set to the queued values", f.loc())
     else:
         rep.violation("C12.R5", "SolverWrapper._apply_pending_bound_updates:gurobi:fix", f"Gurobi fix queue sets {sorted(fix_attrs)} (must set LB and UB)", f.loc())
-    if lb_attrs == {"LB"}:
-        rep.ok("C12.R5", "SolverWrapper._apply_pending_bound_updates:gurobi:lower-bound", "only LB set from the lower-bound queue", f.loc())
+    if lb_attrs == {"LB"} and lb_interplay:
+        rep.ok("C12.R5", "SolverWrapper._apply_pending_bound_updates:gurobi:lower-bound", "only LB set from the lower-bound queue, not below a value fixed in the same batch", f.loc())
+    elif lb_attrs == {"LB"}:
+        rep.violation("C12.R5", "SolverWrapper._apply_pending_bound_updates:gurobi:lower-bound", "the Gurobi lower-bound step writes the queued value alone after the fixes: "
+                      "a smaller lower bound releases a variable fixed in the same batch", f.loc())
     else:
         rep.violation("C12.R5", "SolverWrapper._apply_pending_bound_updates:gurobi:lower-bound", f"Gurobi lower-bound queue sets {sorted(lb_attrs)} (must set LB only)", f.loc())
     # queues cleared in a finally block
